@@ -33,6 +33,18 @@ Fixpoint set_insert (x : Z) (l : list Z) : list Z :=
   | y :: t => if x <? y then x :: y :: t else if y <? x then y :: set_insert x t else y :: t
   end.
 
+(* BTreeSet<K>::insert for any ordered key (check_for_bitflips walks a BTreeSet<&'static str> of register names that
+   op_analysis fills operand by operand: base register, index register) *)
+Section OrderedSet.
+Context {K : Type} (kltb : K -> K -> bool).
+Fixpoint oset_insert (x : K) (l : list K) : list K :=
+  match l with
+  | [] => [x]
+  | y :: t => if kltb x y then x :: y :: t else if kltb y x then y :: oset_insert x t else y :: t
+  end.
+Definition oset_of_list (l : list K) : list K := fold_left (fun s x => oset_insert x s) l [].
+End OrderedSet.
+
 Section OrderedMap.
 Context {K : Type} (kltb : K -> K -> bool).
 (* BTreeMap<K, BTreeSet<u64>>: entry(k).or_insert_with(BTreeSet::new).insert(x) *)
@@ -104,3 +116,9 @@ End CertPipeline.
 Definition cert_pipeline (perm : list (bytes * list bytes) -> list (bytes * list bytes))
   (members : list (bytes * list bytes)) (module : bytes) : option bytes :=
   cert_of bytes_eqb bytes_ltb (perm (hm_of_members bytes_eqb members)) module.
+
+(* ---- the proc_limits array of print_json with EVERYTHING it emits per entry (name, soft, hard, unit), not only the names
+   (C13/Model.limits_json): C03's parser, the HashMap in an arbitrary iteration order, the sort by name, any formatter *)
+Definition limits_render {R} (fmt : bytes * (limit * limit * bytes) -> R) (perm : list entry -> list entry) (data : bytes) : outcome (list R) :=
+  do l <- limits_from data;
+  Ret (render bytes_ltb fmt (map (fun e : entry => let '(n, s, h, u) := e in (n, (s, h, u))) (perm (to_map l)))).
